@@ -416,6 +416,12 @@ func GenTarget(t *tape.Tape, k Knobs) *GConf {
 		seen[key] = true
 		g.Routes = append(g.Routes, r)
 	}
+	// IOS: a second, equal-cost route to one of the destinations.
+	if k.Kind == "IOS" && len(g.Routes) > 0 && t.Next(6) == 0 {
+		r := g.Routes[t.Next(len(g.Routes))]
+		r.Hop = "10.9.0.9"
+		g.Routes = append(g.Routes, r)
+	}
 	return g
 }
 
@@ -701,6 +707,48 @@ func DeriveDevice(t *tape.Tape, k Knobs, b *GConf) (*GConf, []string) {
 						l[0].Permit == l[1].Permit && l[1].Permit != l[2].Permit && l[3].Permit == l[0].Permit {
 						at = append(at, i)
 					}
+				}
+				// target: X(!x) P(x) Y(!x) A(x)  ->  device: A P   (X, Y missing, P below in A's block)
+				var at2 []int
+				for i := 0; i+3 < len(acl.Lines); i++ {
+					l := acl.Lines[i : i+4]
+					if l[0].Remark == "" && l[1].Remark == "" && l[2].Remark == "" && l[3].Remark == "" &&
+						l[1].Permit == l[3].Permit && l[0].Permit != l[1].Permit && l[2].Permit != l[1].Permit {
+						at2 = append(at2, i)
+					}
+				}
+				// Prefer windows where the moved line and the missing line
+				// behind it match a common packet of the universe.
+				var at2o []int
+				for _, i := range at2 {
+					if acesOverlap(a, acl.Lines[i+1], acl.Lines[i+2]) {
+						at2o = append(at2o, i)
+					}
+				}
+				if len(at2o) > 0 {
+					at2 = at2o
+				}
+				if len(at2) > 0 && (len(at) == 0 || t.Next(2) == 0) {
+					i := at2[t.Next(len(at2))]
+					var l []GACE
+					l = append(l, acl.Lines[:i]...)
+					l = append(l, acl.Lines[i+3], acl.Lines[i+1])
+					l = append(l, acl.Lines[i+4:]...)
+					if t.Next(2) == 0 {
+						w := acl.Lines[i+2]
+						w.Log = ""
+						if w.Dst.Kind != "any" {
+							w.Dst = GAddr{Kind: "any"}
+						} else {
+							w.Src = GAddr{Kind: "any"}
+						}
+						if !hasDup(l, w, -1) && !hasDup(acl.Lines, w, -1) {
+							l = append([]GACE{w}, l...)
+						}
+					}
+					acl.Lines = l
+					ops = append(ops, fmt.Sprintf("lines %d,%d of %s missing, line %d sits in the block below them", i, i+2, acl.Name, i+1))
+					break
 				}
 				if len(at) > 0 {
 					i := at[t.Next(len(at))]
@@ -1081,6 +1129,13 @@ func AddClutter(t *tape.Tape, a *GConf) []string {
 				{Permit: true, Proto: "ip", Src: GAddr{Kind: "host", Val: "10.77.0.2"}, Dst: GAddr{Kind: "any"}}}})
 			what = append(what, "unused untagged ACL")
 		}
+		if t.Next(3) == 0 {
+			// An IPv6 ACL (unknown to the tool) printed directly behind the
+			// IPv4 ACLs; its lines look like IPv4 ACL lines.
+			a.Clutter = append(a.Clutter, &cisco.Obj{Head: "ipv6 access-list mgmt6", Opaque: true,
+				Subs: []string{"permit tcp any any eq 22", "permit udp any any eq 53", "deny ipv6 any any"}})
+			what = append(what, "ipv6 access-list behind the IPv4 ACLs")
+		}
 		if t.Next(12) == 0 {
 			// A dangling reference: the tool cannot parse this configuration.
 			a.Clutter = append(a.Clutter, &cisco.Obj{Head: "interface Tunnel9", Mode: true,
@@ -1353,4 +1408,20 @@ func DropInterfaces(a *GConf, n int) []string {
 		ops = append(ops, "device lacks interface "+name)
 	}
 	return ops
+}
+
+// acesOverlap: some packet of the universe matches both lines.
+func acesOverlap(g *GConf, x, y GACE) bool {
+	conf := g.ToConf(true)
+	rx, ok1, err1 := cisco.ParseRule(conf, x.Render(g.Kind))
+	ry, ok2, err2 := cisco.ParseRule(conf, y.Render(g.Kind))
+	if !ok1 || !ok2 || err1 != nil || err2 != nil {
+		return false
+	}
+	for _, p := range Packets() {
+		if rx.Match(p) && ry.Match(p) {
+			return true
+		}
+	}
+	return false
 }
